@@ -597,7 +597,7 @@ def one_symmetric(ctx, eng, rng, p, msg, in_coq, cases, meta):
                 one_decrypt(ctx, eng, dp, ct, tag + b'\x00' * 5, 'any', True, cases, meta, 'long-tag')
     else:
         # decrypt with the same (rejected) tuple and arbitrary bytes: classes must agree with the model too
-        if in_coq:
+        if in_coq and (ctx.tier != 'quick' or rng.random() < 0.35):
             tagg = None if p['taglen'] is None else bytes(min(max(p['taglen'], 0), 20))
             one_decrypt(ctx, eng, p, msg, tagg, 'any', True, cases, meta, 'rejected-tuple')
 
